@@ -1,7 +1,27 @@
 (* model-side driver, area "system" (whole-run correspondence of C04): per-run extraction, constants inside *)
 let fault_name = function OOB_write -> "oob_write" | OOB_read -> "oob_read" | Null_deref -> "null" | Signed_overflow -> "overflow"
                         | Out_of_fuel -> "fuel" | Double_free -> "double_free" | Other_fault -> "other"
+let z_of_int i = if i = 0 then Z0 else if i > 0 then Zpos (pos_of_int i) else Zneg (pos_of_int (-i))
+let z_of_string s = z_of_int (int_of_string s)
+let split_list s = if s = "[]" || s = "" then [] else String.split_on_char ',' s
+let pair s = match String.index_opt s ':' with Some i -> (String.sub s 0 i, String.sub s (i+1) (String.length s - i - 1)) | None -> failwith "pair"
+let ttys s = List.map (fun e -> match String.split_on_char ':' e with
+    | [fd; "N"; nm] -> (z_of_string fd, TtyName (unhex nm))
+    | [fd; "E"; c] -> (z_of_string fd, TtyErr (z_of_string c))
+    | _ -> failwith "tty") (split_list s)
+let zmap s = List.map (fun e -> let (a, b) = pair e in (z_of_string a, unhex b)) (split_list s)
+let show = function
+  | Ok rs -> "ok\t" ^ string_of_int (List.length rs) ^
+             String.concat "" (List.map (fun (s, b) -> "\t" ^ string_of_int (int_of_n (sink_tag s)) ^ "\t" ^ hex (sink_name s) ^ "\t" ^ hex b) rs)
+  | Fault f -> "fault:" ^ fault_name f
 let handle = function
+  (* sysfull ini|~ <ids> <cwd> <hostname> <ttys> <environ> <passwd> <group> <file> <argv> <stdin-is-tty>:
+     ids = ruid euid suid rgid egid sgid pid ppid sid pgid pthread ktid sec usec *)
+  | ["sysfull"; ini; ids; cwd; host; tt; env; pw; gr; file; argv; tty] ->
+    let d = { d_ids = List.map z_of_string (split_list ids); d_cwd = unhex_opt cwd; d_hostname = unhex host; d_ttys = ttys tt;
+              d_owners = []; d_login = None; d_environ = unhexlist_opt env; d_passwd = zmap pw; d_group = zmap gr;
+              d_cgroup = None; d_status = []; d_strftime = []; d_file = unhex_opt file; d_argv = unhexlist_opt argv } in
+    show (run_sys_full (unhex_opt ini) d (tty = "1"))
   (* sys ini|~ filename argv env ruid euid tty pid -> ok <n> (<sinktag> <sinkname> <bytes>)* *)
   | ["sys"; ini; file; argv; env; ru; eu; tty; pid] ->
     let w = { w_env = unhexlist env; w_file = unhex_opt file; w_argv = unhexlist_opt argv } in
